@@ -2,6 +2,7 @@ import Driver.Util
 import Chokan.Model.Romaji
 import Chokan.Gen.Romaji
 import Driver.DicOps
+import Driver.KanaOps
 
 namespace Driver
 open Chokan
@@ -20,7 +21,7 @@ def romaOps (op : String) (arg : String) : Option String :=
 
 def handle (line : String) : String :=
   let (op, arg) := splitOp line
-  let r := (romaOps op arg).orElse fun _ => dicOps op arg
+  let r := ((romaOps op arg).orElse fun _ => dicOps op arg).orElse fun _ => kanaOps op arg
   match r with
   | some r => r.trimAsciiEnd.toString
   | none => "bad-op"
